@@ -1,0 +1,12 @@
+//go:build verif
+
+// Accessor for the C05 verification harness (/verif/harness/e2e, stream initrace, "coldstart" cases):
+// the readiness flag that Stream / StreamDeltas check before they accept a connection is only ever set
+// (CachesSynced); to put a running fake server back into the state of an instance that is still
+// starting, the harness needs to clear it. Built only with -tags verif; no behaviour change.
+package xds
+
+// VerifC05SetServerReady sets the flag behind IsServerReady.
+func VerifC05SetServerReady(s *DiscoveryServer, ready bool) {
+	s.serverReady.Store(ready)
+}
